@@ -41,7 +41,7 @@ SUITES = {
                 "per_axis_pos": False, "name": "struct3"},
         "kinds": [1, 2, 3, 4, 5, 6],
         "depth": {"quick": 5, "thorough": 8}, "maxid": 8,
-        "design_depth": {"quick": 3, "thorough": 5},
+        "design_depth": {"quick": 3, "thorough": 4},
     },
     "struct3c": {   # custom attribute registered as a feature (so DeleteNode captures it)
         "tla": {"N": "3", "T": "3", "Dims": "<- D_none", "Scale": "<- S_none"},
@@ -118,7 +118,7 @@ SUITES["struct5s"] = {
             "per_axis_pos": False, "name": "struct5s"},
     "kinds": [1, 2, 3, 4, 5, 6], "seeds": "SeedsStruct5s",
     "depth": {"quick": 1, "thorough": 2}, "maxid": 12,
-    "design_depth": {"quick": 0, "thorough": 0}, "sample": {"quick": 120, "thorough": 3000}, "cat_workers": 8,
+    "design_depth": {"quick": 0, "thorough": 0}, "sample": {"quick": 260, "thorough": 3000}, "cat_workers": 8,
 }
 SUITES["struct5"] = dict(SUITES["struct5s"])        # universe of the random sessions
 SUITES["seg6s"] = _seg_suite("seg6s", [1, 3], "D_1x3", [1, 1], "S_11", depth=(0, 1), sample={"quick": 20, "thorough": 1500})
@@ -280,8 +280,8 @@ def _design_run(suite, tier, scratch, prop, log):
     inv = ["Inv_Valid", "Inv_All"]
     open(cfgp, "w").write(tlc.cfg_text(constants=mc_constants(suite, depth, False),
                                         invariants=inv, constraint="Bound", view="View"))
-    out, dt, rc = tlc.run_tlc("MC.tla", cfgp, scratch, workers=NCPU, tag="design",
-                              extra=["-coverage", "1"] if tier == "thorough" else [])
+    # (no -coverage: with the large per-state transition sets it exhausts the heap)
+    out, dt, rc = tlc.run_tlc("MC.tla", cfgp, scratch, workers=min(NCPU, 8), tag="design")
     st = tlc.stats(out)
     if not tlc.completed_ok(out) or st is None:
         fails = list(tlc.tuples(out, "FAIL"))[:5]
